@@ -38,8 +38,10 @@ pub enum Cmd {
 #[derive(Debug, Clone, PartialEq, Eq)]
 pub enum Parsed {
     WellFormed(Vec<Cmd>),
-    /// command k (0-based) is malformed; the commands before it are well-formed
-    MalformedAt(usize, Vec<Cmd>, String),
+    /// command k (0-based) is malformed; the commands before it are well-formed; the last
+    /// field is the number of '$' signs in the malformed command (each may consume an id
+    /// before the error is detected)
+    MalformedAt(usize, Vec<Cmd>, String, usize),
     Unspecified(String),
 }
 
@@ -215,7 +217,7 @@ pub fn strict_parse(text: &str) -> Parsed {
     for piece in clean.split(';').map(str::trim).filter(|p| !p.is_empty()) {
         match parse_command(piece) {
             One::Ok(c) => cmds.push(c),
-            One::Bad(why) => return Parsed::MalformedAt(cmds.len(), cmds, why),
+            One::Bad(why) => return Parsed::MalformedAt(cmds.len(), cmds, why, piece.matches('$').count()),
             One::Unspec(why) => return Parsed::Unspecified(why),
         }
     }
@@ -601,8 +603,15 @@ impl ScriptEngine {
                     )
                 }
             },
-            Parsed::MalformedAt(k, prefix, why) => match exec_direct(cfg, &prefix) {
+            Parsed::MalformedAt(k, prefix, why, dollars) => match exec_direct(cfg, &prefix) {
                 Direct::OutOfDomain(_) => (None, "class.malformed_prefix_out_of_domain_skipped"),
+                // the arguments of the malformed command are evaluated left to right, so a
+                // $variable in it may ask the allocator for an id before the fault is met: with
+                // no id left that is a capacity overrun, outside the quantifier
+                Direct::Done(rb, _) if rb.m.allocator_room() < dollars => {
+                    let _ = rb;
+                    (None, "class.malformed_but_allocator_exhausted_skipped")
+                }
                 Direct::Done(rb, _) => {
                     let mut g = new_graph(cfg.n, cfg.cap);
                     let res = catch_unwind(AssertUnwindSafe(|| g.deploy(text)));
@@ -702,7 +711,7 @@ impl Engine for ScriptEngine {
         }
         json!({"config": cfg, "script": text, "fault": fault, "classified": format!("{:?}", match strict_parse(&text) {
             Parsed::WellFormed(c) => format!("well-formed, {} commands", c.len()),
-            Parsed::MalformedAt(k, _, why) => format!("malformed at command {k}: {why}"),
+            Parsed::MalformedAt(k, _, why, _) => format!("malformed at command {k}: {why}"),
             Parsed::Unspecified(w) => format!("unspecified: {w}"),
         })})
     }
